@@ -26,6 +26,6 @@ m={"version":1,
  "engines":[{"name":"govc","path":"/verif/engine","serves_properties":sorted(props),"kind_free_text":"home-built deductive verifier for Go: go/ssa -> verification conditions (SMT-LIB) against Gobra-style //@ contracts; z3 5.1.0 / cvc5 1.0 / z3 4.8.12 back ends"}],
  "checks":checks,
  "not_applicable":[x for x in na if x["property_id"] not in props],
- "notes":"See DESIGN.md. Every check rebuilds its verification conditions from /repo's working tree on each run."}
+ "notes":"See DESIGN.md. Every check rebuilds its verification conditions from /repo's working tree on each run. Known findings: /verif/known_findings.json (status 'finding' = recorded and not repaired, the check prints KNOWN-FINDING and exits 0; status 'fixed' = repaired by the named fix: commit, suppresses nothing). Reasons: DESIGN.md 8.5 and 8.11."}
 json.dump(m,open(V+'/MANIFEST.json','w'),indent=1)
 print("claimed:",sorted(props)," n/a:",[x["property_id"] for x in m["not_applicable"]])
